@@ -188,8 +188,9 @@ pub fn run<C: Suite>(ctx: &mut Ctx) {
     }
     for (n, t) in shapes_v {
         for proto in ["dkg", "refresh-dkg", "dealer", "refresh-dealer", "repair", "coordinator"] {
-            for kind in ["default", "derived"] {
-                if ctx.quick() && kind == "derived" && !(n == 3 && t == 2) {
+            // big-scalar: identifiers such as -1, -2, 2^128+1 - state whose scalars sit at the top of the range
+            for kind in ["default", "derived", "big-scalar"] {
+                if ctx.quick() && kind != "default" && !(n == 3 && t == 2) {
                     continue;
                 }
                 if proto == "repair" && n <= t {
